@@ -237,4 +237,22 @@ instance (rs : List Round) : Decidable (History rs) :=
 def nodeTrace (cfg : Cfg) (c : Ctx) : List Ev := (nodeCli { c with cfg := cfg }).trace
 def nodeErr (cfg : Cfg) (c : Ctx) : Option Err := (nodeCli { c with cfg := cfg }).err
 
+/-! ### Global schedules -/
+
+/-- the processes of a submission: the (serialised) submit side and one node per batch -/
+inductive Proc where
+  | submit
+  | node (b : Nat)
+  deriving DecidableEq, Repr
+
+/-- the events of process `p` in a global schedule -/
+def proj (p : Proc) (g : List (Proc × Ev)) : List Ev :=
+  g.filterMap (fun x => if x.1 = p then some x.2 else none)
+
+/-- a global schedule of a submission: its submit-side projection is the history's trace, and a node does something only
+    after its batch was handed to the HPC (the one fact about SLURM used) — otherwise ANY interleaving -/
+structure Execution (cfg : Cfg) (rs : List Round) (g : List (Proc × Ev)) : Prop where
+  submit : proj .submit g = submitSide cfg rs
+  causal : ∀ pre post b e, g = pre ++ (Proc.node b, e) :: post → (Proc.submit, Ev.sbatch b) ∈ pre
+
 end Jade.Lifecycle
